@@ -1,5 +1,6 @@
 import AtreeProofs.MapInv
 import AtreeProofs.MapLemmas
+import AtreeProofs.Map.Empty
 /-
   C02 — Ordered map behaves as a dictionary under every operation history.
   PROPERTY THEOREMS: refinement of `OMap` operations to dictionary operations, for an arbitrary
@@ -14,7 +15,9 @@ variable {r : Nat}
 theorem inv_new (T : Nat) (hT : legalThreshold T = true) (D : DigestFn (r + 1)) (addr ty : Nat)
     (seedOf : SlabID → Nat) (c : Ctx) :
     MapInv T D (OMap.new (r := r) addr ty seedOf c).1 ∧ (OMap.new (r := r) addr ty seedOf c).1.toList = [] := by
-  sorry
+  constructor
+  · exact emptyMap_inv hT _ _ _
+  · rfl
 
 /-- Lookup: the value of a present key, key-not-found for an absent one; never any other error. -/
 theorem get_refines (T : Nat) (hT : legalThreshold T = true) (D : DigestFn (r + 1)) (cfg : MCfg) (m : OMap r)
@@ -63,10 +66,19 @@ theorem pop_refines (T : Nat) (hT : legalThreshold T = true) (D : DigestFn (r + 
     (h : MapInv T D m) (c : Ctx) (hc : CtxOk m c) :
     (m.popIterate c).1 = m.toList.reverse ∧ (m.popIterate c).2.1.toList = [] ∧ (m.popIterate c).2.1.count = 0 ∧
     MapInv T D (m.popIterate c).2.1 ∧ (m.popIterate c).2.1.rootID = m.rootID := by
-  sorry
+  have hinl : m.isInlined = false := h.standalone
+  have hres : (m.popIterate c).2.1 = ⟨0, emptyRoot r m.rootID, m.ty, 0, m.seed⟩ := by
+    simp only [OMap.popIterate, hinl, emptyRoot]
+    rfl
+  refine ⟨?_, ?_, ?_, ?_, ?_⟩
+  · simp only [OMap.popIterate, OMap.toList]
+    exact MTree.popIterate_fst m.d m.root c
+  · rw [hres]; rfl
+  · rw [hres]
+  · rw [hres]; exact emptyMap_inv hT _ _ _
+  · rw [hres]; rfl
 
 theorem count_refines (T : Nat) (D : DigestFn (r + 1)) (m : OMap r) (h : MapInv T D m) :
-    m.count = m.toList.length := by
-  sorry
+    m.count = m.toList.length := h.count_eq
 
 end Atree.C02
